@@ -260,7 +260,17 @@ impl Ctx {
                 continue;
             }
             if a.starts_with('/') && !a.contains("..") {
-                continue; // a starting point
+                continue; // a starting point (or the recorder's path)
+            }
+            // the recorder as a command (it only appends to its log): at depth 0 only
+            if ["-exec", "-execdir", "{}", "+", ";"].contains(a) {
+                if !args.windows(2).any(|w| w[0] == "-maxdepth" && w[1] == "0") {
+                    inconclusive("guard: -exec outside the sandbox needs -maxdepth 0");
+                }
+                if args.iter().enumerate().any(|(j, w)| (*w == "-exec" || *w == "-execdir") && args.get(j + 1).map(|c| Path::new(c) != rec_bin()).unwrap_or(true)) {
+                    inconclusive("guard: only the recorder may be run outside the sandbox");
+                }
+                continue;
             }
             if !ALLOWED.contains(a) {
                 inconclusive(&format!("guard: {a:?} is not allowed on a starting point outside the sandbox"));
